@@ -432,6 +432,20 @@ func checkEscaper(w *World, c *Check, rule string) {
 				step = "i+" + k.Value.ExactString()
 			} else {
 				step = "i+size"
+				// … where size is what the UTF-8 decoder measured on the bytes at hand: a length read off the lead byte
+				// by a table or a helper skips bytes the loop has not judged (and, wrong by one at a boundary, splits a
+				// sequence so that its tail is escaped as an invalid byte)
+				measured := false
+				if ex, isEx := bo.Y.(*ssa.Extract); isEx && ex.Index == 1 {
+					if dc, isCall := ex.Tuple.(*ssa.Call); isCall {
+						if cal := dc.Common().StaticCallee(); cal != nil && cal.Object() != nil && cal.Object().Pkg() != nil && cal.Object().Pkg().Path() == "unicode/utf8" && strings.HasPrefix(cal.Name(), "DecodeRune") {
+							measured = true
+						}
+					}
+				}
+				if !measured {
+					c.bad(rule, name+":advance:unmeasured-step", w.InstrPos(bo), fmt.Sprintf("the scan position advances by %s, which is not the size utf8.DecodeRune reported for the bytes at hand: bytes are passed over without having been judged, and a length taken from the lead byte alone is wrong for the sequences at a boundary of its table", shortVal(bo.Y)))
+				}
 			}
 		}
 		var label string
